@@ -1498,6 +1498,15 @@ impl<T: PPGEvaluatorStrategy> PPGEvaluator<T> {
                                 self.gen
                             );
                         }
+                        JobState::Ephemeral(JobStateEphemeral::FinishedSkipped) => {
+                            // just like the skipped Output above: it did not run,
+                            // and it is downstream of a failure.
+                            set_node_state!(
+                                j,
+                                JobState::Ephemeral(JobStateEphemeral::FinishedUpstreamFailure),
+                                self.gen
+                            );
+                        }
                         JobState::Ephemeral(JobStateEphemeral::ReadyButDelayed) => {
                             // not yet offered - and now it can't be needed anymore
                             set_node_state!(
